@@ -72,6 +72,9 @@ def rule_quote(ctx, prop):
                         ordk = vv
                 cls = ordk if ordk else "noquote"
                 got.setdefault(cls, set()).add(out)
+            if "noquote" not in got and "Equal" in got:
+                # no separate "contains no quote at all" path: both counts are 0 there, i.e. the Equal row
+                got["noquote"] = set(got["Equal"])
             if "*" in table:
                 allv = set().union(*got.values()) if got else set()
                 ok = allv == table["*"]
